@@ -79,6 +79,8 @@ def c02(tier):
     return writer.run_writer_check("C02", tier, [
         dict(mc=(W, wcfg("conform", q)), max_progs=3000 if q else 60000, mult=1 if q else 2),
         dict(mc=(W, wcfg("prepared", q)), max_progs=500 if q else 10000),
+        # several connections of one process with their messages open at overlapping times (process-wide deflater pools)
+        dict(mc=(W, wcfg("conform", q)), inter=(300 if q else 6000, 3), filt=lambda p: p["conns"][0]["pmce"]),
         # "always": also when a transport write fails (error, timeout, short write) and the application carries on
         dict(mc=(W, wcfg("fault", q)), max_progs=80 if q else 2000, allk=True, bset=[7, 16, 126, 1024],
              filt=lambda p: p["mfault"]["at"] == 0),
